@@ -207,6 +207,8 @@ def run(prop, tier, seed, configs, maxscripts, maxlen=None):
             inp = driver_input(name, scripts)
             results = run_scripts(s, name, inp)
             for r_ in results:
+                if len(viol) >= 5:
+                    break       # enough confirmed rejections: every further one costs three long re-runs
                 sc = scripts[r_["script"]]
                 nscripts += 1
                 asc, aobs = applied(sc, r_["obs"])
